@@ -42,6 +42,12 @@ def run_scn(scn, on_step):
         if for_append and enc == "dict_iso":   # the stamp as an ISO-8601 string without offset: still a naive wall-clock time
             return [{"open": c.open, "high": c.high, "low": c.low, "close": c.close, "volume": c.volume,
                      "timestamp": (c.timestamp.isoformat() if c.timestamp is not None else None)} for c in cs]
+        if for_append and enc == "pandas":   # stamps as pandas.Timestamp (a datetime SUBCLASS, what DataFrame rows carry), naive
+            import pandas as pd
+            from hexital.core.candle import Candle
+
+            return [Candle(open=c.open, high=c.high, low=c.low, close=c.close, volume=c.volume,
+                           timestamp=(pd.Timestamp(c.timestamp) if c.timestamp is not None else None)) for c in cs]
         if for_append and enc == "list":
             return [[c.timestamp, c.open, c.high, c.low, c.close, c.volume] for c in cs]
         return cs
